@@ -697,17 +697,19 @@ class Oracle:
             sem = pool._putlock
             if sem._value != sem._initial_value:
                 why = 'plain'
-                if sim.labels & {'putfail_injected', 'putfail_pickle',
-                                 'putfail_direct'}:
+                if any(getattr(mj, 'hard_fired', False) and
+                       mj.parts[None].ready_delivered for mj in sim.jobs
+                       if mj.kind == 'apply' and None in mj.parts):
+                    # a job was timed out although its worker had finished it
+                    # (READY in flight) and moved on: two slots, one replacement
+                    # (open finding D24; looked at first since failed sends,
+                    # repaired, no longer explain a leak)
+                    why = 'limit-kill-late-ready'
+                elif sim.labels & {'putfail_injected', 'putfail_pickle',
+                                   'putfail_direct'}:
                     why = 'putfail'
                 elif 'discard' in sim.labels:
                     why = 'discard'
-                elif any(getattr(mj, 'hard_fired', False) and
-                         mj.parts[None].ready_delivered for mj in sim.jobs
-                         if mj.kind == 'apply' and None in mj.parts):
-                    # a job was timed out although its worker had finished it
-                    # (READY in flight) and moved on: two slots, one replacement
-                    why = 'limit-kill-late-ready'
                 raise Violation('C10/P2-leak/%s' % why, 'value %d bound %d once '
                                 'quiet' % (sem._value, sem._initial_value))
         if self.on('c09') or self.on('c07'):
